@@ -224,6 +224,9 @@ def min_other_distance(ex, chem):
     return None if best is None else math.sqrt(best / ex.scale)
 
 
+def copy_arg(arg): return list(arg) if isinstance(arg, list) else arg
+
+
 def one_case(ck, rng, label, crys, chem, ex, cutoff, mode, maxjumps, skipped, cd_override=None):
     """returns dict describing the case (with Coq term) or None if skipped"""
     r2 = cutoff * cutoff
@@ -268,19 +271,21 @@ def one_case(ck, rng, label, crys, chem, ex, cutoff, mode, maxjumps, skipped, cd
     # the code's own box (for the record)
     code_nmax = [int(np.round(np.sqrt(r2 / crys.metric[i, i]))) + 1 for i in range(crys.dim)] + [0] * (3 - crys.dim)
     t0 = time.time()
+    snap0 = sg.state_snapshot(crys)
     try:
-        jn = crys.jumpnetwork(chem, cutoff) if arg is None else crys.jumpnetwork(chem, cutoff, arg)
+        jn = crys.jumpnetwork(chem, cutoff) if arg is None else crys.jumpnetwork(chem, cutoff, copy_arg(arg))
         jl = crys.jumpnetwork2lattice(chem, jn)
     except Exception as e:
         return dict(error="%s: %s" % (type(e).__name__, e), label=label, cutoff=cutoff, arg=arg, chem=chem, crys=repr(crys),
                     njumps=len(model), nclasses=0, nG=len(ex.ops), nmax=nmax, code_nmax=code_nmax)
     timpl = time.time() - t0
+    sdiff = sg.state_diff(snap0, sg.state_snapshot(crys))
     impl = convert(ex, crys, chem, jn)
     latt = [[(int(i), int(j), tuple([int(x) for x in R] + [0] * (3 - ex.dim))) for (i, j), R in cl] for cl in jl]
     ops = coq_ops(ex, chem)
     res = dict(label=label, cutoff=cutoff, arg=arg, chem=chem, model=model, impl=impl, latt=latt, nmax=nmax, code_nmax=code_nmax,
                timpl=timpl, crys=repr(crys), njumps=len(model), nclasses=len(jn), nG=len(ex.ops), obst=obst,
-               box_small=any(code_nmax[k] < nmax[k] for k in range(3)), _ex=ex, _crys=crys, c2=c2, nblocked=nfree - len(model), nfar=nfar, nthrough=nthrough,
+               box_small=any(code_nmax[k] < nmax[k] for k in range(3)), state_diff=sdiff, _ex=ex, _crys=crys, c2=c2, nblocked=nfree - len(model), nfar=nfar, nthrough=nthrough,
                nshared=shared_displacements(ex, chem, model), nwyck=len(crys.sitelist(chem)))
     if impl is None:
         res["error"] = "displacement does not correspond to a lattice vector between the named sites"; return res
@@ -358,7 +363,7 @@ def report(ck, res, code, nmodel):
     """turn one evaluated case into counters / violations"""
     rep = {k: res.get(k) for k in ("label", "crys", "chem", "cutoff", "arg", "nmax", "code_nmax", "njumps", "nclasses", "nG")}
     rep["closestdistance"] = res.get("arg")
-    kind = "%s|cd=%s|%s" % (res["label"].split("-")[0] if res["label"].startswith(("rand", "farend", "multiW", "through")) else "named",
+    kind = "%s|cd=%s|%s" % (res["label"].split("-")[0] if res["label"].startswith(("rand", "farend", "multiW", "through", "history")) else "named",
                             "default" if res["arg"] is None else ("list" if isinstance(res["arg"], list) else "scalar"),
                             "boxsmall" if res.get("box_small") else "boxok") + ("|obstructed" if res.get("nblocked") else "") + ("|far-end-obstructor" if res.get("nfar") else "") + ("|pass-through-d0" if res.get("nthrough") else "") + ("|shared-dx-%dW" % res.get("nwyck", 1) if res.get("nshared") else "")
     ck.case(key=(res["label"], res["crys"], res["chem"], round(res["cutoff"], 9), res["arg"]), nontrivial=res.get("njumps", 0) >= 2, kind=kind,
@@ -376,6 +381,9 @@ def report(ck, res, code, nmodel):
         key = "c21-box-too-small" if res["box_small"] and all(any(abs(x[2][k]) > res["code_nmax"][k] for k in range(3)) for x in res["missing"]) else "c21-missing-jump"
         bad.append((key, "misses %s jump(s) below the cutoff, e.g. (i,j,R)=%s (the code searches |R_k| <= %s; the certified box is %s)" %
                     (len(res["missing"]) if len(res["missing"]) < 5 else ">=5", res["missing"][0], res["code_nmax"], list(res["nmax"]))))
+    if res.get("state_diff"): bad.append(("c21-crystal-state-changed", "the call changed the Crystal object: attributes %s" % res["state_diff"]))
+    if res.get("fresh_diff"): bad.append(("c21-history-dependent", "the network differs from the one a fresh Crystal object returns for the same arguments "
+                                         "(earlier calls on this object: %s): %s" % (res.get("history"), res["fresh_diff"])))
     if res["notclosed"]: bad.append(("c21-class-not-closed", "class %d is not closed: image of %s under %s is absent" % res["notclosed"]))
     if res["lattdiff"]: bad.append(("c21-lattice-form", "jumpnetwork2lattice differs from the displacement form"))
     rep.update(extra=res["extra"], missing=res["missing"], notclosed=res["notclosed"], coq_code=code, model_jumps=nmodel)
@@ -384,7 +392,7 @@ def report(ck, res, code, nmodel):
     if code is not None:
         if code == 1:
             raise RuntimeError("harness certificate rejected by the Coq model: %s" % rep)
-        if (code != 0) != bool(bad) or nmodel != res["njumps"]:
+        if (code != 0) != bool([b for b in bad if b[0] not in ("c21-crystal-state-changed", "c21-history-dependent")]) or nmodel != res["njumps"]:
             ck.violation("Coq decision (code %s: %s; %s model jumps) and the Python evaluator (%s; %d jumps) disagree" %
                          (code, MEANING.get(code, "ok"), nmodel, [b[0] for b in bad], res["njumps"]), rep, key="c21-model-evaluator-disagree")
 
@@ -464,7 +472,9 @@ def run(ck):
                "crystals with permuted atom order, omega phase, random P1 cells) with the cutoff just above a lattice-vector length so "
                "that inequivalent jumps share one displacement vector; plus multi-species crystals (B2, rock salt, perovskite, fluorite, "
                "2-D centred/edge-decorated rectangles, random) with a cutoff reaching a jump that runs exactly through a site of another "
-               "species, closest distance exactly 0 (default or a 0 list entry) or positive; inputs within 1e-6 of a threshold are "
+               "species, closest distance exactly 0 (default or a 0 list entry) or positive; plus call histories on one Crystal object (same "
+               "species and cutoff, closest distance scanned downwards after a large one; compared with a fresh object; attributes of "
+               "the object must not change); inputs within 1e-6 of a threshold are "
                "skipped and counted; distinct = distinct (crystal, species, cutoff, closest distance); non-trivial = at least 2 jumps")
     ck.trusted += ["harness/c21.py, sitegen.py: exact read-back of the crystal, conversion dx -> (i,j,R) (verified rounding), Coq literal printing",
                    "crys.G taken from the implementation (validated per operation by op_okb; completeness is property C18)"]
@@ -504,7 +514,7 @@ def run(ck):
     # species occupying >= 2 Wyckoff sets, cutoff beyond the shortest lattice vector: inequivalent jumps (i,i,R), (j,j,R)
     # share one displacement vector -- each must still appear, in its own class
     from . import gen
-    nmw = ck.n(6, 30)
+    nmw = ck.n(5, 30)
     srcs = []
     fl = ["sq2w", "polar2w", "pmm2-3w", "re3", "wurtzite-int", "fcc-oct-tet", "hcp-oct-tet"]
     rng.shuffle(fl)
@@ -547,7 +557,7 @@ def run(ck):
                ("rect-edges-2d", lambda: mk(np.diag([1., 1.25]), [[a([0., 0])], [a([.5, 0]), a([0, .5])]])),
                ("tet-b2", lambda: mk(np.diag([1., 1., 1.2]), [[a([0., 0, 0])], [a([.5, .5, .5])]]))]
     rng.shuffle(through)
-    nthr = ck.n(8, 36)
+    nthr = ck.n(6, 36)
     found = tries = si = 0
     while found < nthr and tries < 15 * nthr:
         tries += 1
@@ -576,7 +586,7 @@ def run(ck):
         if res is not None and (res.get("nthrough") or (mode == "scalar" and res.get("nblocked"))):
             cases.append(res); found += 1
     # low-symmetry / polar cells with an obstructing atom beside the far end of a jump, cutoff just above the jump length
-    nfarwant = ck.n(8, 40)
+    nfarwant = ck.n(6, 40)
     tries = found = 0
     while found < nfarwant and tries < 30 * nfarwant:
         tries += 1
@@ -595,6 +605,39 @@ def run(ck):
         res = one_case(ck, rng, "farend-" + r[0], crys, chem, ex, cutoff, "override", maxjumps, skipped, cd_override=arg)
         if res is not None and res.get("nfar"):
             cases.append(res); found += 1
+    # call histories on ONE Crystal object: same species and cutoff, closest distance scanned downwards (scalar, list, default 0)
+    # after the earlier call with a large distance; every answer is judged by the exact oracle and compared with a fresh object
+    cand = [c for c in cases if c.get("nblocked") and "_crys" in c and c.get("arg") is not None and c["njumps"] <= 150]
+    rng.shuffle(cand)
+    nhist = 0
+    for b in cand[:ck.n(4, 20)]:
+        crys, ex, chem, cutoff = b["_crys"], b["_ex"], b["chem"], b["cutoff"]
+        a0 = b["arg"]
+        big = max(a0) if isinstance(a0, list) else a0
+        hist = [a0]
+        steps = [math.floor(0.5 * big * 256) / 256.0,
+                 [math.floor(0.25 * big * 256) / 256.0 if k == rng.randrange(crys.Nchem) else 0.0 for k in range(crys.Nchem)],
+                 None]
+        for st in steps:
+            if st is None:
+                res = one_case(ck, rng, "history-" + b["label"], crys, chem, ex, cutoff, "default", 400, skipped)
+            else:
+                res = one_case(ck, rng, "history-" + b["label"], crys, chem, ex, cutoff, "override", 400, skipped, cd_override=st)
+            if res is None: continue
+            res["history"] = list(hist); hist.append(st)
+            if res.get("impl") is not None:
+                try:
+                    fresh = gen.crystal.Crystal(np.array(crys.lattice, copy=True), [[np.array(u, copy=True) for u in l] for l in crys.basis], chemistry=list(crys.chemistry))
+                    if fresh.N == crys.N and np.array_equal(fresh.lattice, crys.lattice):
+                        fj = fresh.jumpnetwork(chem, cutoff) if st is None else fresh.jumpnetwork(chem, cutoff, copy_arg(st))
+                        fc = convert(ex, fresh, chem, fj)
+                        if fc is not None:
+                            a, f = set(x for cl in res["impl"] for x in cl), set(x for cl in fc for x in cl)
+                            if a != f: res["fresh_diff"] = "only fresh: %s; only this object: %s" % (sorted(f - a)[:3], sorted(a - f)[:3])
+                except Exception as e:
+                    ck.note("fresh-object comparison failed (%s: %s)" % (type(e).__name__, str(e)[:60]))
+            cases.append(res); nhist += 1
+    ck.extra["history_calls_on_one_object"] = nhist
     # ---- Coq decision on every case -----------------------------------------------------------
     good = [c for c in cases if "term" in c]
     codes = {}
